@@ -328,6 +328,47 @@ class CFG:
         conds.reverse()
         return conds
 
+    def must_literals(self, stmt):
+        """[(test expr, polarity, syntactic)] for every if/while test t that every path entry -> stmt leaves by one and the
+        same edge, outermost first.  `syntactic` says whether the literal is also an enclosing branch of stmt (then it is in
+        path_condition); the others come from earlier guards whose other arm cannot reach stmt (it raised, returned,
+        continued).  The list depends on the control-flow graph only, not on how alternatives are nested."""
+        n = self.node(stmt)
+        if self._dom is None:
+            self._dom = self._dominators(self.entry.id, self.succ, self.pred)
+        doms = self._dom.get(n.id, set())
+        syn = {id(t): pol for t, pol in self.path_condition(stmt)}
+        out = []
+        for tid in doms:
+            t = self.nodes[tid]
+            if t.kind != "test" or tid == n.id:
+                continue
+            if not isinstance(t.stmt, (ast.If, ast.While)):
+                continue
+            for label, pol in (("T", True), ("F", False)):
+                if self._only_by(t, label, n):
+                    out.append((len(self._dom.get(tid, ())), t.ast, pol, id(t.ast) in syn and syn[id(t.ast)] == pol))
+        out.sort(key=lambda r: r[0])
+        return [(a, b, c) for _, a, b, c in out]
+
+    def _only_by(self, tnode, label, target):
+        """target is unreachable once the `label` edges of tnode are cut"""
+        keep = [s for s in self.succ[tnode.id] if self.edge_label.get((tnode.id, s)) == label]
+        if not keep:
+            return False
+        seen = set()
+        st = [self.entry.id]
+        while st:
+            x = st.pop()
+            if x in seen:
+                continue
+            seen.add(x)
+            for s in self.succ[x]:
+                if x == tnode.id and s in keep:
+                    continue
+                st.append(s)
+        return target.id not in seen
+
     def toplevel_ancestor(self, stmt):
         cur = stmt
         while True:
